@@ -730,7 +730,14 @@ class JsonHistory(History):
 
         # Write empty history directly — flush() would skip empty buffer.
         if self.filename:
-            meta = {"cmds": [], "sessionid": str(self.sessionid)}
+            # Keep the session's lock: without "locked"/"ts" the GC of another
+            # session treats this live session's file as the oldest unlocked one.
+            meta = {
+                "cmds": [],
+                "sessionid": str(self.sessionid),
+                "ts": [time.time(), None],
+                "locked": True,
+            }
             with open(self.filename, "w", newline="\n", encoding="utf-8") as f:
                 xlj.ljdump(meta, f, sort_keys=True)
 
